@@ -6,7 +6,6 @@ import base64
 import contextlib
 import hashlib
 import pathlib
-import random
 import re
 
 from peers import c2x as X
@@ -17,15 +16,15 @@ from simkit.net import ConnectPlan
 ID = "C20"
 LEVEL = "exploration"
 ENGINE = "simkit/proxy-world"
-QUICK_RUNS = 8000
+QUICK_RUNS = 16000
 QUICK_BUDGET_S = 150
 THOROUGH_BUDGET_S = 900
 CHUNK = 50
 RULE = ("seeded histories of 1-3 client connections (shared or distinct source addresses, sequential or overlapping) "
         "against the real proxy with proxyauth = single user | any | htpasswd ({SHA} and bcrypt entries, virtual file), in "
         "modes regular, upstream, reverse, transparent and socks5. Each connection mixes absolute-form requests, "
-        "pipelined batches, CONNECT (retry after 407 on the same connection) followed by plain-HTTP requests inside the "
-        "tunnel, reverse/transparent origin-form requests and SOCKS5 method/user-pass negotiations, each with credentials "
+        "pipelined batches, CONNECT (retry after 407 on the same connection) followed by plain-HTTP (or, 1 in 5, HTTPS) "
+        "requests inside the tunnel, reverse/transparent origin-form requests and SOCKS5 method/user-pass negotiations, each with credentials "
         "that are good / wrong / missing / malformed (bad base64, stripped or extra padding, wrong scheme, no colon, "
         "duplicate headers, wrong header for the path, latin-1 instead of UTF-8) incl. passwords with ':', non-ASCII and "
         "empty passwords, x segmentation x eager/lazy connection strategy. Oracle: an independent RFC 7617 / RFC 1929 "
@@ -44,9 +43,9 @@ ASSUMPTIONS = ["VLoop keeps asyncio FIFO semantics; SimNet pipes behave like rel
                "no accept/reject obligation (only: forwarded XOR challenged)",
                "no obligation about credential-looking headers inside an established tunnel (they belong to the origin)"]
 EXPECTED_PROBES = ["accepted_forwarded", "rejected_challenged", "connect_accepted", "connect_rejected", "connect_retry",
-                   "tunnel_inner_forwarded", "socks_accepted", "socks_rejected", "socks_no_userpass_method",
+                   "tunnel_inner_forwarded", "tunnel_inner_https", "socks_accepted", "socks_rejected", "socks_no_userpass_method",
                    "reverse_401", "proxy_407", "either_verdict", "colon_password_presented", "non_ascii_presented",
-                   "htpasswd_runs", "bcrypt_entries", "same_address_clients", "pipelined_batches"]
+                   "htpasswd_runs", "bcrypt_entries", "same_address_clients", "pipelined_batches", "handled_as_raw_tcp"]
 
 HT_PATH = "/sim/c20/htpasswd"
 BCRYPT_SALT = "$2b$04$abcdefghijklmnopqrstuu"
@@ -187,10 +186,14 @@ def verdict_socks(model: Model, ub: bytes, pb: bytes):
 
 
 def features(pair):
+    """-> (all features, the one that names the failure mode in a violation key)"""
     if not pair:
-        return {"colon_in_password": False, "non_ascii": False, "empty_password": False}
+        return {"colon_in_password": False, "non_ascii": False, "empty_password": False}, "none"
     u, p = pair
-    return {"colon_in_password": ":" in p, "non_ascii": not (u + p).isascii(), "empty_password": p == ""}
+    f = {"colon_in_password": ":" in p, "non_ascii": not (u + p).isascii(), "empty_password": p == ""}
+    main = "colon_in_password" if f["colon_in_password"] else "empty_password" if f["empty_password"] else \
+        "non_ascii" if f["non_ascii"] else "plain"
+    return f, main
 
 
 # ---------------------------------------------------------------------------
@@ -322,9 +325,27 @@ def gen_req(r, tok, v, good, header, inner=False):
         d["cred"] = None if r.random() < 0.8 else http_cred(r, v, good, header)
     else:
         d["cred"] = http_cred(r, v, good, header)
-    if r.random() < 0.25:
-        d["cutseed"] = r.randrange(1 << 30)
     return d
+
+
+def assign_cuts(r, fam, steps):
+    """Segmentation of what the client writes: explicit cut offsets / gaps on the first request of each send."""
+    units = []
+    for s in steps:
+        if s["op"] == "req":
+            units.append(([s], "outer", None))
+        elif s["op"] == "batch":
+            units.append((s["requests"], "outer", None))
+        elif s["op"] in ("connect", "socks"):
+            host = ("t" if s["op"] == "connect" else "s") + f"{s['tok']}.test"
+            units.extend(([q], "inner", host) for q in s["requests"])
+    for unit, level, host in units:
+        if not unit or r.random() >= 0.3:
+            continue
+        n = sum(len(build_request(dict(q, _host=host), fam, level)) for q in unit)
+        cuts = G.gen_cuts(r, n, style=r.choice(["few", "many", "head", "head"]))
+        unit[0]["cuts"] = cuts
+        unit[0]["gaps"] = G.gen_gaps(r, len(cuts))
 
 
 def generate(rng, tier):
@@ -342,6 +363,7 @@ def generate(rng, tier):
 
     clients = []
     nclients = r.choice([1, 1, 2, 2, 3])
+    sequential = r.random() < 0.4   # one connection after the other (allows reuse of a source address+port)
     for ci in range(nclients):
         steps = []
         if fam in ("regular", "upstream"):
@@ -353,6 +375,7 @@ def generate(rng, tier):
                     steps.append({"op": "batch", "requests": [gen_req(r, nt(), v, good, header) for _ in range(r.choice([2, 3, 4]))]})
                 else:
                     steps.append({"op": "connect", "tok": nt(), "cred": http_cred(r, v, good, header),
+                                  "tls": r.random() < 0.2,   # CONNECT host:443, then HTTPS inside the tunnel
                                   "requests": [gen_req(r, nt(), v, good, header, inner=True) for _ in range(r.choice([1, 2, 3]))]})
         elif fam in ("reverse", "transparent"):
             for _ in range(r.choice([1, 2, 3, 4])):
@@ -380,11 +403,13 @@ def generate(rng, tier):
                           "user": X.S(pair[0].encode(enc)[:255]), "pass": X.S(pair[1].encode(enc)[:255]),
                           "pipelined": r.random() < 0.2,
                           "requests": [gen_req(r, nt(), v, good, header, inner=True) for _ in range(r.choice([1, 2, 3]))]})
+        assign_cuts(r, fam, steps)
         same = ci > 0 and r.random() < 0.5
+        # the same (address, port) can only come back after the earlier connection is gone
         clients.append({"ip": clients[0]["ip"] if same else f"192.168.1.{7 + ci}",
-                        "port": clients[0]["port"] if same and r.random() < 0.5 else 50000 + ci,
-                        "start": r.choice([0.0, 0.0, 0.002, 0.3, 2.0, 40.0]) * ci, "steps": steps})
-    sc = {"family": fam, "modes": [mode], "eager": r.random() < 0.5, "validator": v,
+                        "port": clients[0]["port"] if same and sequential and r.random() < 0.6 else 50000 + ci,
+                        "start": r.choice([0.0, 0.0, 0.002, 0.3, 2.0, 40.0]) * (1 if sequential else ci), "steps": steps})
+    sc = {"family": fam, "modes": [mode], "eager": r.random() < 0.5, "validator": v, "sequential": sequential,
           "options": {"connection_strategy": r.choice(["eager", "lazy"])}, "clients": clients}
     return sc
 
@@ -451,11 +476,7 @@ def build_request(step, fam, level) -> bytes:
 
 
 def _cuts(step, n):
-    if "cutseed" not in step:
-        return (), ()
-    rr = random.Random(step["cutseed"])
-    cuts = G.gen_cuts(rr, n, style=rr.choice(["few", "many", "head"]))
-    return cuts, G.gen_gaps(rr, len(cuts))
+    return step.get("cuts", ()), step.get("gaps", ())
 
 
 async def do_requests(cl, ci, reqs, fam, level, recs, host=None):
@@ -484,11 +505,13 @@ async def do_requests(cl, ci, reqs, fam, level, recs, host=None):
     return ok
 
 
-async def run_client(w, ci, cspec, fam, recs):
+async def run_client(w, ci, cspec, fam, recs, cinfo):
     if cspec.get("start"):
         await asyncio.sleep(cspec["start"])
     od = ("o.test", 80) if fam == "transparent" else None
-    conn = w.connect_client(peername=(cspec.get("ip", "192.168.1.7"), cspec.get("port", 50000 + ci)), original_dst=od)
+    peername = (cspec.get("ip", "192.168.1.7"), cspec.get("port", 50000 + ci))
+    conn = w.connect_client(peername=peername, original_dst=od)
+    cinfo[ci] = {"peername": peername, "t0": w.loop.time(), "t1": None}
     cl = X.HttpClient(w.loop, X.ConnStream(w.loop, conn))
     for step in cspec.get("steps", []):
         if cl.stream.closed_by_proxy:
@@ -502,7 +525,8 @@ async def run_client(w, ci, cspec, fam, recs):
                 break
         elif op == "connect":
             host = f"t{step['tok']}.test"
-            lines = [f"CONNECT {host}:80 HTTP/1.1", f"Host: {host}:80"]
+            cport = 443 if step.get("tls") else 80
+            lines = [f"CONNECT {host}:{cport} HTTP/1.1", f"Host: {host}:{cport}"]
             for n, val in (step.get("cred") or {}).get("headers", []):
                 lines.append(f"{n}: {val}")
             await cl.stream.send(("\r\n".join(lines) + "\r\n\r\n").encode("latin1"))
@@ -514,6 +538,11 @@ async def run_client(w, ci, cspec, fam, recs):
             if m is None:
                 break
             if 200 <= m.status <= 299:
+                if step.get("tls") and not await cl.start_tls(host):
+                    for q in step.get("requests", []):
+                        recs.append({"ci": ci, "kind": "req", "tok": q["tok"], "level": "inner", "step": q, "batch": False,
+                                     "status": None, "err": "tls_handshake_failed", "served": False, "hdrs": []})
+                    break
                 for q in step.get("requests", []):
                     if not await do_requests(cl, ci, [q], fam, "inner", recs, host=host):
                         break
@@ -553,9 +582,12 @@ async def run_client(w, ci, cspec, fam, recs):
         elif op == "sleep":
             await asyncio.sleep(step.get("t", 0.1))
     await asyncio.sleep(0.05)
-    rec_closed = cl.stream.closed_by_proxy
     cl.stream.close()
-    return rec_closed
+    # the connection is over when the proxy has closed its side too (needed before the same address may come back)
+    deadline = w.loop.time() + 20.0
+    while not conn.proxy_closed and w.loop.time() < deadline:
+        await conn.wait_change(deadline - w.loop.time())
+    cinfo[ci]["t1"] = w.loop.time()
 
 
 def run(sc, keep_log=False):
@@ -563,7 +595,7 @@ def run(sc, keep_log=False):
     recs: list = []
     fam = family_of(sc["modes"][0])
     servers = []
-    closed = {}
+    cinfo: dict = {}
 
     async def body(w):
         def planner(host, port, n, proto):
@@ -572,14 +604,20 @@ def run(sc, keep_log=False):
             def accept(conn):
                 servers.append(conn)
                 conn.peer_task = w.loop.create_task(
-                    X.serve_conn(w.loop, conn, log, addr=(host, port), is_proxy=is_proxy, tls=False),
+                    X.serve_conn(w.loop, conn, log, addr=(host, port), is_proxy=is_proxy,
+                                 tls=not is_proxy and port in X.TLS_PORTS),
                     name=f"sim-origin-{conn.id}")
             return ConnectPlan(accept=accept)
         w.net.connect_planner = planner
 
-        async def one(ci, c):
-            closed[ci] = await run_client(w, ci, c, fam, recs)
-        tasks = [w.loop.create_task(one(ci, c), name=f"sim-clientpeer-{ci}") for ci, c in enumerate(sc.get("clients", []))]
+        if sc.get("sequential"):
+            async def chain():
+                for ci, c in enumerate(sc.get("clients", [])):
+                    await run_client(w, ci, c, fam, recs, cinfo)
+            tasks = [w.loop.create_task(chain(), name="sim-clientpeer-chain")]
+        else:
+            tasks = [w.loop.create_task(run_client(w, ci, c, fam, recs, cinfo), name=f"sim-clientpeer-{ci}")
+                     for ci, c in enumerate(sc.get("clients", []))]
         if tasks:
             done, pending = await asyncio.wait(tasks, timeout=900.0)
             for t in done:
@@ -597,9 +635,11 @@ def run(sc, keep_log=False):
     v = sc["validator"]
     opts = dict(sc.get("options", {}))
     opts["proxyauth"] = proxyauth_option(v)
+    opts.setdefault("ssl_insecure", True)   # origin certificates are not the subject here
     with virtual_file(HT_PATH, htpasswd_text(v) if v["kind"] == "htpasswd" else ""):
         sim_s, w = W.run_world(body, eager=sc.get("eager", False), seed=sc.get("seed", 0), options=opts,
                                modes=sc["modes"], keep_log=keep_log)
+    w.c20_cinfo = cinfo
     return log, recs, w, sim_s
 
 
@@ -644,6 +684,18 @@ def oracle(sc, log, recs, w):
     for a in w.net.connect_attempts:
         attempts.setdefault(a["host"], []).append(a)
 
+    # client connections that the proxy relayed as raw TCP from the start (tcp_start hook, no HTTP flow at proxy level)
+    raw_tcp = set()
+    cinfo = getattr(w, "c20_cinfo", {})
+    if fam == "transparent":
+        for t, name, data in w.hooks:
+            if name != "tcp_start":
+                continue
+            for ci, info in cinfo.items():
+                if tuple(data.client_conn.peername[:2]) == tuple(info["peername"]) and info["t0"] <= t and (
+                        info["t1"] is None or t <= info["t1"]):
+                    raw_tcp.add(ci)
+
     connect_407: dict = {}
     tunnel_ok: dict = {}  # ci -> verdict of the CONNECT / SOCKS negotiation that opened the tunnel
     for rec in recs:
@@ -662,7 +714,7 @@ def oracle(sc, log, recs, w):
             else:
                 verdict, pair = verdict_socks(model, ub, pb)
                 label = step.get("label", "")
-            feats = features(pair)
+            feats, main_feat = features(pair)
             if feats["colon_in_password"]:
                 bump("colon_password_presented")
             if feats["non_ascii"]:
@@ -685,7 +737,7 @@ def oracle(sc, log, recs, w):
                     bump("socks_rejected")
             elif verdict == "accept":
                 if not accepted or rec["reply"] != "0500":
-                    v.append({"class": "valid_credentials_rejected", "key": dict(path=path, **feats),
+                    v.append({"class": "valid_credentials_rejected", "key": {"path": path, "credential": main_feat},
                               "msg": f"client {ci}: SOCKS5 user={ub!r} pass={pb!r} is accepted by the validator but "
                                      f"greeting={rec['greeting']} auth={rec['auth']} reply={rec['reply']}"})
                 else:
@@ -703,6 +755,8 @@ def oracle(sc, log, recs, w):
             fwd = got_req.get(tok, [])
             if rec["status"] == 200 and rec["served"] and fwd:
                 bump("tunnel_inner_forwarded")
+                if any(e.get("tls") for e in fwd):
+                    bump("tunnel_inner_https")
             else:
                 v.append({"class": "authenticated_tunnel_request_refused",
                           "key": {"path": fam + "_inner", "got": rec["status"] if rec["status"] else rec["err"]},
@@ -714,7 +768,7 @@ def oracle(sc, log, recs, w):
         path += "connect" if kind == "connect" else ("absolute" if fam in ("regular", "upstream") else "request")
         verdict, pair = verdict_http(model, step.get("cred"), path_header)
         label = (step.get("cred") or {}).get("label", "missing")
-        feats = features(pair)
+        feats, main_feat = features(pair)
         if feats["colon_in_password"]:
             bump("colon_password_presented")
         if feats["non_ascii"]:
@@ -737,9 +791,19 @@ def oracle(sc, log, recs, w):
         forwarded = bool(fwd) or ok_answer
         if verdict == "either":
             bump("either_verdict")
+        if ci in raw_tcp:
+            # the proxy never looked at this connection as HTTP: one report for the whole connection, not one per
+            # credential variant
+            bump("handled_as_raw_tcp")
+            if forwarded and verdict == "reject":
+                v.append({"class": "unauthenticated_forwarded", "key": {"path": path, "handled_as": "raw_tcp"},
+                          "msg": f"client {ci}: {kind} r{tok} with credentials {step.get('cred')} must be refused but the proxy "
+                                 f"relayed the connection as raw TCP (no HTTP hooks, no authentication): peer saw {len(fwd)} "
+                                 f"request(s), client got {rec['status']}"})
+            continue
         if verdict == "reject":
             if forwarded:
-                v.append({"class": "unauthenticated_forwarded", "key": {"path": path, "cred": label},
+                v.append({"class": "unauthenticated_forwarded", "key": {"path": path, "handled_as": "http", "cred": label},
                           "msg": f"client {ci}: {kind} r{tok} with credentials {step.get('cred')} must be refused but was "
                                  f"forwarded (peer saw {len(fwd)} request(s)/connect(s), client got {rec['status']})"})
             elif not challenged:
@@ -753,7 +817,7 @@ def oracle(sc, log, recs, w):
                     bump("connect_rejected")
         elif verdict == "accept":
             if not ok_answer or (kind != "connect" and not fwd):
-                v.append({"class": "valid_credentials_rejected", "key": dict(path=path, **feats),
+                v.append({"class": "valid_credentials_rejected", "key": {"path": path, "credential": main_feat},
                           "msg": f"client {ci}: {kind} r{tok} presented {pair!r} ({step.get('cred')}), which the "
                                  f"{model.kind} validator accepts, but got status={rec['status']} err={rec['err']} "
                                  f"reached_peer={bool(fwd)}"})
